@@ -141,5 +141,15 @@ class C04(Check):
         from checks import replay_server
         return replay_server.replay_c04(name, model, rec)
 
+    def bounded_stand_in(self, tier, undecided):
+        if not any("protocol_handler.py::ProtocolHandler._handle_initialize" in u for u in undecided):
+            return []
+        from checks import replay_server
+        r = replay_server.c04_grid(tier)
+        r["name"] = "handle_initialize"
+        if not r.get("reproduced"):
+            r["covers"] = "protocol_handler.py::ProtocolHandler._handle_initialize"
+        return [r]
+
 
 CHECK = C04()
